@@ -59,6 +59,9 @@ def gen_program(rnd, nsym):
     return prog
 
 
+rnd_upcast64_off = False  # upcast(float64) -> float128 (numpy.longdouble) is printable and is judged; upcast(complex128) is refused by the printer
+
+
 def build(ctx, prog, syms):
     """returns list of nodes (None where the step is not well-typed for its kind and was replaced by its first operand)"""
     nodes = []
@@ -98,14 +101,16 @@ def build(ctx, prog, syms):
                 e = ctx.select(getattr(ctx, st[1])(a, b), x, y)
             elif op == "complex":
                 a, b = nodes[st[1]], nodes[st[2]]
-                if a.get_type().is_complex or b.get_type().is_complex or not a.get_type().is_same(b.get_type()):
+                ta, tb = a.get_type(), b.get_type()
+                mixed_ok = (not ta.is_complex and not tb.is_complex and ta.kind == "float" and tb.kind == "float" and (ta.bits, tb.bits) == (32, 64))  # the one mixed pair make_complex accepts
+                if ta.is_complex or tb.is_complex or not (ta.is_same(tb) or mixed_ok):
                     e = ctx.add(a, b)
                 else:
                     e = ctx.complex(a, b)
             elif op == "cast":
                 a = nodes[st[2]]
                 t = a.get_type()
-                if (st[1] == "upcast" and t.bits in (64, 128)) or (st[1] == "downcast" and t.bits in (16, 64) and t.is_complex) or (st[1] == "downcast" and t.bits == 16):
+                if (st[1] == "upcast" and (t.bits == 128 or (t.bits == 64 and not t.is_complex and rnd_upcast64_off))) or (st[1] == "downcast" and t.bits in (16, 64) and t.is_complex) or (st[1] == "downcast" and t.bits == 16):
                     e = ctx.negative(a)
                 else:
                     e = getattr(ctx, st[1])(a)
@@ -129,6 +134,8 @@ def runtime_dtypes(root, env):
             return numpy.complex64(complex(a, b))
         if a.dtype == numpy.float64 and b.dtype == numpy.float64:
             return numpy.complex128(complex(a, b))
+        if a.dtype == numpy.float32 and b.dtype == numpy.float64:
+            return numpy.complex128(complex(a, b))  # the one mixed pair utils.make_complex accepts (it tests the imaginary part's dtype twice)
         raise NotImplementedError("make_complex needs equal float32/float64 parts")
 
     def ev(e):
@@ -319,6 +326,57 @@ def task_generated(params, rec):
             rec.sample(dict(dtypes=dts, program=[list(map(str, s)) for s in prog][:12]))
 
 
+def directed_shapes():
+    """small shapes x every dtype assignment x {rewritten, not rewritten}: each kind that has its own typing rule directly on symbols and on the
+    result of complex(a, b) / of a cast, where a random program rarely puts it"""
+    sh = []
+    for k in ("real", "imag", "absolute", "conjugate", "negative", "square", "sqrt", "exp"):
+        sh.append((f"{k}(complex(a,b))", lambda ctx, a, b, k=k: getattr(ctx, k)(ctx.complex(a, b)), 2))
+        sh.append((f"{k}(complex(a,b))-referenced", lambda ctx, a, b, k=k: (lambda t: t * t + t)(getattr(ctx, k)(ctx.complex(a, b))), 2))
+        sh.append((f"{k}(a)", lambda ctx, a, k=k: getattr(ctx, k)(a), 1))
+        sh.append((f"{k}(upcast(a))", lambda ctx, a, k=k: getattr(ctx, k)(ctx.upcast(a)), 1))
+        sh.append((f"{k}(downcast(a))", lambda ctx, a, k=k: getattr(ctx, k)(ctx.downcast(a)), 1))
+    for k in ("add", "multiply", "subtract", "divide", "hypot", "atan2", "pow", "copysign"):
+        sh.append((f"{k}(a,b)", lambda ctx, a, b, k=k: getattr(ctx, k)(a, b), 2))
+        sh.append((f"{k}(real(complex(a,b)),a)", lambda ctx, a, b, k=k: getattr(ctx, k)(ctx.real(ctx.complex(a, b)), a), 2))
+        sh.append((f"{k}(a,const like b)", lambda ctx, a, b, k=k: (lambda t: t * t)(getattr(ctx, k)(a, ctx.constant(1.5, b))), 2))
+    sh.append(("select-mixed", lambda ctx, a, b: ctx.select(ctx.absolute(a) < ctx.absolute(b), a, b), 2))
+    sh.append(("select-mixed-referenced", lambda ctx, a, b: (lambda t: t + t * t)(ctx.select(ctx.absolute(a) < ctx.absolute(b), a, b)), 2))
+    sh.append(("upcast-referenced", lambda ctx, a: (lambda t: t * t + t)(ctx.upcast(a)), 1))
+    sh.append(("downcast-referenced", lambda ctx, a: (lambda t: t * t + t)(ctx.downcast(a)), 1))
+    sh.append(("downcast(upcast(a)*upcast(a))", lambda ctx, a: ctx.downcast(ctx.upcast(a) * ctx.upcast(a)), 1))
+    for c in ("eps", "largest", "smallest", "pi", "posinf"):
+        sh.append((f"named-constant:{c}", lambda ctx, a, b, c=c: ctx.real(a) * ctx.constant(c, a) + b, 2))
+        sh.append((f"named-constant-result:{c}", lambda ctx, a, c=c: ctx.constant(c, a), 1))
+    return sh
+
+
+def task_directed(params, rec):
+    import itertools
+    import functional_algorithms as fa
+    from functional_algorithms import rewrite
+
+    rnd = random.Random(f"c08-directed-{params['seed']}")
+    shapes = directed_shapes()[params["shard"]:: params["nshards"]]
+    for label, fn, nsym in shapes:
+        for dts in itertools.product(DTYPES, repeat=nsym):
+            for algebraic in (True, False):
+                names = "ab"[:nsym]
+                ns = dict(_fn=fn)
+                exec("def d(ctx, %s):\n    return _fn(ctx, %s)\n" % (", ".join(names), ", ".join(names)), ns)
+                ctx = fa.Context(paths=[fa.algorithms])
+                try:
+                    with warnings.catch_warnings():
+                        warnings.simplefilter("ignore")
+                        g = ctx.trace(ns["d"], *[getattr(numpy, d_) for d_ in dts])
+                        g = g.rewrite(fa.targets.numpy, rewrite) if algebraic else g.rewrite(fa.targets.numpy)
+                except (NotImplementedError, AssertionError, TypeError, KeyError, AttributeError, ValueError, RuntimeError) as e:
+                    rec.count("refused:trace:" + type(e).__name__)
+                    continue
+                rec.count("directed:graphs")
+                check_graph(rec, g, list(dts), "d", rnd)
+
+
 def task_shipped(params, rec):
     import functional_algorithms as fa
     from functional_algorithms import rewrite
@@ -340,13 +398,14 @@ def task_shipped(params, rec):
             check_graph(rec, g, dts, fname, rnd, shipped=True)
 
 
-TASKS = {"generated": task_generated, "shipped": task_shipped}
+TASKS = {"generated": task_generated, "shipped": task_shipped, "directed": task_directed}
 
 
 def plan(tier, seed):
     n, nsh = (260, 12) if tier == "quick" else (14000, 14)
     t = [("generated", dict(seed=seed, shard=s, n=n)) for s in range(nsh)]
     t += [("shipped", dict(shard=s, nshards=2)) for s in range(2)]
+    t += [("directed", dict(seed=seed, shard=s, nshards=6)) for s in range(6)]
     return t
 
 
